@@ -74,20 +74,7 @@ def check(ctx):
     ctx.ob("R18.4", "only the points setter writes _points", ok, detail=writers, where=P.fq, construct="writers of _points",
            message=f"_points is written by {sorted(writers)}", consequence="vertices bypass orientation/closure normalisation")
     fs = P.methods["points"]
-    # what is stored, read backwards along the reaching definitions (temporaries and rebinding of one name both disappear):
-    # close_curve( ... orient( ... Polygon(<input>) ... ) ... ) in that nesting order
-    from ..dataflow import expand_at
-    stores = [n for n in own_nodes(fs.node) if isinstance(n, ast.Assign) and any(norm(t) == "self._points" for t in n.targets)]
-    steps = []
-    ok = len(stores) == 1
-    if ok:
-        ex = expand_at(fs.node, stores[0].value, stores[0])
-        steps = [norm(ex)[:200]]
-
-        def inner(node, name):
-            return [c for c in ast.walk(node) if isinstance(c, ast.Call) and norm(c.func).split(".")[-1] == name and c is not node]
-        cc = [ex] if isinstance(ex, ast.Call) and norm(ex.func).split(".")[-1] == "close_curve" else []
-        ok = bool(cc) and any(any(inner(o, "Polygon") for o in inner(c, "orient")) for c in cc)
+    ok, steps = setter_chain(fs)
     ctx.ob("R18.4", "setter chain: shapely Polygon -> orient (counter-clockwise) -> ... -> close_curve -> store", ok, detail=steps,
            where=fs.fq, construct="points setter chain", loc=loc(fs, fs.node), message=f"setter steps: {steps}",
            consequence="stored vertices may be clockwise or open (after a reflection, `scale(xfact=-1)`)")
@@ -334,3 +321,77 @@ def inplace_discipline(ctx, P, D):
                detail=seen, where=f.fq, construct=f"{cls.name}.{m_} inplace discipline",
                loc=loc(f, f.node), message=f"{cls.name}.{m_}: {problems[:2]}",
                consequence="a non-in-place transformation mutates the original")
+
+
+def follow_points_setter(fs, kind: str, interiors: bool, valid: bool):
+    """The points setter followed (pvs/smallstep.py) for an input of the given kind (array / Polygon / shapely) whose polygon has
+    (no) interiors and is (in)valid: (outcome, stored value)."""
+    from ..smallstep import Machine, Opaque as SO, module_constants
+
+    def call(m, node, name, args, kwargs):
+        if name == "isinstance" and len(args) == 2:
+            o, c = args
+            if isinstance(o, SO) and o.text in ("points", "points.points"):
+                ctext = c.text if isinstance(c, SO) else " ".join(x.text for x in c if isinstance(x, SO)) if isinstance(c, (tuple, list)) else ""
+                if ctext == "Polygon":
+                    return kind == "Polygon" and o.text == "points"
+                return kind == "shapely"
+            return True
+        return NotImplemented
+
+    def undecided(text):
+        t = text.strip()
+        if t.endswith(".interiors") or "interiors" in t:
+            return interiors if not t.startswith("not ") else None
+        if t.endswith(".is_valid"):
+            return valid
+        if t.endswith(".is_simple"):
+            return valid
+        return None
+    params = [a.arg for a in fs.node.args.args]
+    env = dict(module_constants(fs.module.tree))
+    env.update({p_: SO(p_) for p_ in params})
+    def attrs(text):
+        # the closed vertex array has the right shape in these scenarios
+        if text.endswith(".ndim"):
+            return 2
+        if text.endswith(".shape"):
+            return (SO("n"), 2)
+        return NotImplemented
+    m = Machine(env, attrs, call, fuel=16, undecided=undecided)
+    kind_, val = m.run_function(fs.node)
+    stored = [v for base, attr, v in m.attr_stores if base == SO("self") and attr == "_points"]
+    return kind_, val, stored
+
+
+def setter_chain(fs):
+    """close_curve( ... orient( ... shapely Polygon(<input>) ... ) ... ) is what is stored, for every kind of input"""
+    from ..smallstep import Opaque as SO, render
+    steps = []
+    ok = True
+
+    def find(v, name):
+        """calls named `name` inside a symbolic value"""
+        out = []
+        if isinstance(v, SO) and v.parts:
+            if v.parts[0] == "call" and v.parts[1].split(".")[-1] == name:
+                out.append(v)
+            for x in v.parts[1:]:
+                out += find(x, name)
+        elif isinstance(v, (list, tuple)):
+            for x in v:
+                out += find(x, name)
+        elif isinstance(v, dict):
+            for x in v.values():
+                out += find(x, name)
+        return out
+    for kind in ("array", "Polygon", "shapely"):
+        k, val, stored = follow_points_setter(fs, kind, interiors=False, valid=True)
+        steps.append(f"{kind}: {render(stored[0])[:160] if stored else k + ' ' + render(val)[:60]}")
+        if k != "return" or len(stored) != 1:
+            ok = False
+            continue
+        v = stored[0]
+        top = v.parts[1].split(".")[-1] if isinstance(v, SO) and v.parts and v.parts[0] == "call" else None
+        ok = ok and top == "close_curve" and any(find(o, "Polygon") for o in find(v, "orient"))
+    return ok, steps
